@@ -42,7 +42,7 @@ class FunctionReciprocalTransformer(BaseReciprocalTransformer):
             "exp": (numpy.exp, "log"),
             "log(1+x)": (_log_1_plus_x, "exp(x)-1"),
             "log1p": (numpy.log1p, "expm1"),
-            "exp(x)-1": (_exp_x_minus_1, "log"),
+            "exp(x)-1": (_exp_x_minus_1, "log(1+x)"),
             "expm1": (numpy.expm1, "log1p"),
         }
 
